@@ -32,6 +32,11 @@ Theorem key_consistent_check : forall f,
 Proof. exact key_consistent_b_sound. Qed.
 Print Assumptions key_consistent_check.
 
+(* ... and the executable test is exactly the hypothesis: it never rejects a function that is key-consistent *)
+Theorem key_consistent_check_complete : forall f, key_consistent f -> key_consistent_b f = true.
+Proof. exact key_consistent_b_complete. Qed.
+Print Assumptions key_consistent_check_complete.
+
 (* the hypotheses are satisfiable, and elimination happens:
      B0: y = 7 ; x = y + y ; x = 1 ; intrinsic(undeclared effects)      -- only `x = y + y` is dead *)
 Definition sx := mks 1%N 32 None.
